@@ -53,12 +53,16 @@ def run(F, R, tier):
     for gi, g in enumerate(A.groups if default_cfg else []):
         if g.get("fn") in fns:
             n = len(A.group_hits.get(gi, []))
-            R.ob("justified-group-count", g["name"], n == g["count"],
+            # more sites than were reviewed = a new site rides on an old justification; fewer = code went away or moved
+            # (a moved site shows up as an open site of its new function)
+            R.ob("justified-group-count", g["name"], n <= g["count"],
                  "group justification matches %d sites, reviewed count is %d" % (n, g["count"]), nontrivial=False)
+            if n < g["count"]:
+                R.note("justification group '%s' now matches %d of the %d reviewed sites" % (g["name"], n, g["count"]))
     for k in (A.justified if default_cfg else []):
         fn = k.split(" | ")[0]
         if fn in fns and k not in keys:
-            R.ob("justified-site-stale", k, False, "tables/justified_sites.json names a site that no longer exists")
+            R.note("tables/justified_sites.json names a site that no longer exists: %s" % k)
 
     who_calls(F, R, A)
     emission_link(F, R)
